@@ -9,7 +9,6 @@ HIST_UNREACH = (OTHER, "a NodeJoined event carries the NodeJoined type and a not
                 "NodeLeft is only emitted for a node whose departure was notified", "at most one NodeLeft per node until the opposite event",
                 "NodeLeft is emitted only once the latest node-left rebalance epoch has completed, or on the node's timeout",
                 "a departure notified while the node is not reported as left is recorded (or reported at once)",
-                "a node that was reported as left, then as joined, and leaves again is recorded as a new departure",
                 "a recorded departure is reported when its timeout fires", "a recorded departure is reported once the latest node-left rebalance epoch has completed")
 CHECK = {
     "id": "C34",
@@ -25,7 +24,7 @@ CHECK = {
     "opts": {"unwind": 16, "select_precise": True, "birth_guard_stores": True, "map_range": "per_entry", "map_dedup": True, "feas_from_iter": 100,
              "substitute": {"(*github.com/tochemey/goakt/v4/discovery.Node).PeersAddress": P + "vC34_peersAddress"},
              "stub": ["(*" + P + "cluster).detectLeaderChangeLocked"]},
-    "timeout_ms": {"quick": 170000, "thorough": 1500000},
+    "timeout_ms": {"quick": 300000, "thorough": 1800000},
     "explanation": "internal/cluster/cluster.go trackNodeJoinEvent, trackNodeLeftEvent, emitOverdueNodeLeft, processRebalanceStart, processRebalanceComplete, assign{Join,Left}EpochLocked, "
                    "emitPending{Join,Left}ForEpochLocked, emitNode{Left,Joined}Locked and sendEventLocked (real non-blocking channel send) are executed symbolically on a real cluster struct. "
                    "(1) vC34_step: ONE arbitrary notification (kind in {node-join, node-left, rebalance-start(reason, epoch, node), rebalance-complete(epoch), node-left timeout}; one job per kind) from an ARBITRARY "
@@ -33,7 +32,7 @@ CHECK = {
                    "(never the local node; only notified nodes; at most one NodeLeft/NodeJoined per node until the opposite event (notification or emission); NodeLeft only in the node's timeout step or once the latest "
                    "node-left rebalance epoch has completed, same for NodeJoined with node-join epochs; a recorded departure IS reported in those steps) and the invariant again afterwards; vC34_init: the invariant holds initially "
                    "=> histories of any length over the node/epoch domain. (2) vC34_history3/4: every history of 3 (thorough 4) notifications from the real initial state against the same monitor (first kind(s) split into jobs). "
-                   "(3) vC34_redeparture: witness history for known finding C34-2. Substituted: discovery.Node.PeersAddress (returns the harness node's real value 'h0:1'; net.JoinHostPort is outside the encoder), "
+                   "(3) vC34_redeparture: a peer that left, rejoined and leaves again is reported again (the history that failed before fix b6ef16c). Substituted: discovery.Node.PeersAddress (returns the harness node's real value 'h0:1'; net.JoinHostPort is outside the encoder), "
                    "the two goset filters are a harness set type (map-backed Add/Contains/Remove); auto-stubbed: detectLeaderChangeLocked (leader-change events are not part of the property), time.AfterFunc (the timeout is a "
                    "harness-driven step), time.UnixMilli. handleClusterEvent's JSON decoding is not executed (typed handlers are called).",
     "bounds": {"nodes": "local node + 3 peers (4 addresses)", "epochs": "1..3", "reasons": "node-left, node-join, other",
